@@ -84,6 +84,11 @@ CLAIMED['C15'] = dict(
    text="Total theorem for the metadata codec over its WHOLE value universe (numpy scalars, bytes, sets, mixed and nested sequences, tuples of tuples of anything, dicts to any depth): save_item fails, or the item it wrote reads back to a kind-sensitively equal value -- up to exactly the two known findings, excluded by a decidable side condition and refuted by witnesses in C03. Bad keys and unsupported kinds are proved to be rejected. The Array calibration round trip is proved for ALL extents incl. zero-length axes. Names (empty, '.', '/', NUL, reserved, 5000 chars, colliding with datasets) at 6 positions, 0-d and zero-extent arrays, PointList edge inputs (sub-array fields, 0-d, unstructured) and empty containers are decided on the real code by the oracle stream (408 edge inputs): save raised, or read succeeded with equal content.",
    note=TB + MDM + "PARTIAL: the names / PointList / empty-container streams are oracle-only (no Coq model of HDF5 name parsing). Known findings as in C03.",
    technique="Coq total theorem (inversion of every accepting branch of the writer model) + edge-input oracle + vm_compute correspondence", ref="5 C15")
+
+CLAIMED['C17'] = dict(
+   text="Over arbitrary HDF5 objects (model of h5py's visititems scan): non-HDF5 bytes and HDF5 files that are neither EMD 1.0 nor hold a group tagged as EMD 0.1 data are refused; every tagged data group at any depth is found; each data group becomes an Array with the group's name, the same data and, per axis, the dim vector, name and units of the corresponding 1-based dim dataset; one group gives a single Array, several give a root holding all of them (names pairwise distinct -- the same-name case is refuted by a witness = known finding). Correspondence + oracle on 300 generated 0.1 files (1-5 groups, depth 0-5, rank 1-4, 7 dtypes, malformed variants) and 150 non-EMD / junk files; sha256 unchanged by read.",
+   note=TB + TREE + "Model coq/Model/Legacy.v. Data and dim vectors by token (first element) and length; the bare `except:` around the importer is modelled as refusal on any failure. Modelled not verified: h5py parsing of junk bytes (refusal is observed).",
+   technique="Coq proof over arbitrary file objects (scan completeness by induction on paths; import spec) + vm_compute correspondence", ref="5 C17")
 PENDING = {}
 props = [json.loads(l) for l in open(os.path.join(V, 'properties.jsonl'))]
 checks, na = [], []
